@@ -340,3 +340,171 @@ def pool_reuse(rng: random.Random, ntasks: int = 2, ncalls: int = 4) -> tuple[st
     lines += writes('AM', '    ', 1) + [f'    print({piece("AM")!r})', '']
     lines += writes('M', '', 2) + ['asyncio.run(amain())'] + writes('M', '', 1) + [f'print({piece("M")!r})']
     return '\n'.join(lines) + '\n', {'forms': forms_used, 'jobs': len(defs)}
+
+
+def unterminated_output(rng: random.Random, nthreads: int, ntasks: int, join: bool = True) -> tuple[str, dict]:
+    """Programs whose output is not made of whole lines only.  Every entity (the main thread, each thread, each task) writes a
+    few whole lines and pieces of lines, and the LAST write of some of them (chosen at random; at least one, see `unterminated`)
+    does not end with a newline: `print(x, end='')`, `sys.stdout.write('tail')`, a progress display redrawn with '\\r', a write
+    whose text has a newline in the middle, `print(x, end=' ', flush=True)`.  The others end with an ordinary line.  Threads are
+    joined, or (`join=False`) outlive the main script — they have all entered their (traced) function before the script ends, as in
+    `concurrent`, and write their last piece after it.
+    Returns (source, {'owners': {tag: function name}, 'unterminated': [tags whose last write has no newline], 'forms': {tag: form}})."""
+    forms = ['end-empty', 'write', 'progress-cr', 'newline-inside', 'end-space-flush']
+
+    def tail(tag: str, ind: str, form: str) -> list:
+        if form == 'end-empty':
+            return [f"{ind}print('{tag} tail', end='')"]
+        if form == 'write':
+            return [f"{ind}sys.stdout.write('{tag} tail')"]
+        if form == 'progress-cr':
+            return [f'{ind}for pct in range(0, 101, 50):', f"{ind}    sys.stdout.write('\\r{tag} %3d%%' % pct)", f'{ind}    sys.stdout.flush()']
+        if form == 'newline-inside':
+            return [f"{ind}print('{tag} last whole line', '{tag} tail', sep='\\n', end='')"]
+        if form == 'end-space-flush':
+            return [f"{ind}print('{tag} tail', end=' ', flush=True)"]
+        return [f"{ind}print('{tag} done')"]                        # 'line': an ordinary last line
+
+    def body(tag: str, ind: str) -> list:
+        out = []
+        for k in range(rng.randint(1, 3)):
+            r = rng.random()
+            if r < 0.4:
+                out.append(f"{ind}print('{tag}', {k})")
+            elif r < 0.7:
+                out += [f"{ind}print('{tag}', {k}, end=' ')", f"{ind}print('{tag} rest')"]
+            else:
+                out.append(f"{ind}sys.stdout.write('{tag} w{k}\\n')")
+        return out
+    tags = ['M'] + [f'T{i}' for i in range(nthreads)] + [f'A{i}' for i in range(ntasks)]
+    chosen = {t: (rng.choice(forms) if rng.random() < 0.6 else 'line') for t in tags}
+    if all(f == 'line' for f in chosen.values()):
+        chosen[rng.choice(tags)] = rng.choice(forms)
+    owners: dict = {}
+    lines = ['import sys, threading, asyncio', '']
+    if not join and nthreads:
+        lines += ['entered = threading.Semaphore(0)', '']
+    for i in range(nthreads):
+        tag = f'T{i}'
+        lines += [f'def thread_body_{i}():'] + (['    entered.release()', '    import time', '    time.sleep(0.05)'] if not join else [])
+        lines += body(tag, '    ') + tail(tag, '    ', chosen[tag]) + ['']
+        owners[tag] = f'thread_body_{i}'
+    for i in range(ntasks):
+        tag = f'A{i}'
+        lines += [f'async def task_body_{i}():'] + body(tag, '    ') + ['    await asyncio.sleep(0)'] + tail(tag, '    ', chosen[tag]) + ['']
+        owners[tag] = f'task_body_{i}'
+    if ntasks:
+        lines += ['async def amain():', '    await asyncio.gather(' + ', '.join(f'task_body_{i}()' for i in range(ntasks)) + ')', '']
+    lines += ['ths = [' + ', '.join(f'threading.Thread(target=thread_body_{i})' for i in range(nthreads)) + ']', 'for t in ths:', '    t.start()']
+    lines += body('M', '')
+    if ntasks:
+        lines += ['asyncio.run(amain())']
+    lines += ['for t in ths:', '    t.join()' if join else '    entered.acquire()']
+    lines += tail('M', '', chosen['M'])
+    return '\n'.join(lines) + '\n', {'owners': owners, 'unterminated': [t for t in tags if chosen[t] != 'line'], 'forms': chosen}
+
+
+def outliving_writers(rng: random.Random, nthreads: int = 2) -> tuple[str, dict]:
+    """A script that starts threads and does NOT join them, the threads writing after the script's main code has returned.
+    Every thread has entered its (traced) function before the script ends (the semaphore handshake of `concurrent(join=False)`),
+    may write a little (possibly leaving a line unfinished), then waits for an event that the LAST statement of the main script
+    sets, sleeps 0.2–0.3 s and only then writes several full and partial lines, with short pauses in between.  So that text is
+    written by a traced thread while the run is only waiting for the threads the script left behind.  Every piece carries a unique
+    tag and is written by exactly one `sys.stdout.write` (or by `print` if it is a full line).
+    Returns (source, {'writes': {entity tag: [texts in the order written]}, 'late': {entity tag: [texts written after the script ended]}})."""
+    chars = 'xyz é漢'
+    counter = [0]
+    writes: dict = {}
+    late: dict = {}
+
+    def piece(tag: str) -> str:
+        counter[0] += 1
+        return f'{tag}.{counter[0]}' + ''.join(rng.choice(chars) for _ in range(rng.randint(0, 3)))
+
+    def stmts(tag: str, ind: str, n: int, into: list, pause: bool = False) -> list:
+        out = []
+        for _ in range(n):
+            r = rng.random()
+            if r < 0.3:
+                p = piece(tag)
+                out.append(f'{ind}print({p!r})')
+                into.append(p + '\n')
+            elif r < 0.5:
+                p = piece(tag) + '\n'
+                out.append(f'{ind}sys.stdout.write({p!r})')
+                into.append(p)
+            elif r < 0.7:
+                p = piece(tag) + '~'
+                out.append(f'{ind}sys.stdout.write({p!r})')
+                into.append(p)
+            elif r < 0.9:
+                p = piece(tag) + '\n' + piece(tag) + '~'
+                out.append(f'{ind}sys.stdout.write({p!r})')
+                into.append(p)
+            else:
+                out.append(f'{ind}print()')
+                into.append('\n')
+            if pause and rng.random() < 0.6:
+                out.append(f'{ind}time.sleep({rng.choice([0.01, 0.03, 0.05])})')
+        return out
+
+    lines = ['import sys, threading, time', '', 'entered = threading.Semaphore(0)', 'go = threading.Event()', '']
+    for i in range(nthreads):
+        tag = f'L{i}'
+        writes[tag] = []
+        late[tag] = []
+        lines += [f'def late_body_{i}():', '    entered.release()']
+        lines += stmts(tag, '    ', rng.randint(0, 2), writes[tag])
+        lines += ['    go.wait()', f'    time.sleep({rng.choice([0.2, 0.25, 0.3])})']
+        lines += stmts(tag, '    ', rng.randint(3, 6), late[tag], pause=True)
+        p = piece(tag)                       # (at least one line end after the script has ended)
+        lines += [f'    print({p!r})', '']
+        late[tag].append(p + '\n')
+        if rng.random() < 0.5:
+            lines[-1:] = stmts(tag, '    ', 1, late[tag]) + ['']
+        writes[tag] += late[tag]
+    writes['M'] = []
+    lines += ['ths = [' + ', '.join(f'threading.Thread(target=late_body_{i})' for i in range(nthreads)) + ']', 'for t in ths:', '    t.start()']
+    lines += stmts('M', '', rng.randint(0, 2), writes['M'])
+    lines += ['for t in ths:', '    entered.acquire()']
+    p = piece('M')
+    lines += [f'print({p!r})', 'go.set()']       # not joined: the threads outlive the main script; `go.set()` is its last statement
+    writes['M'].append(p + '\n')
+    return '\n'.join(lines) + '\n', {'writes': writes, 'late': late}
+
+
+def outliving_callers(rng: random.Random, nthreads: int = 1, pause: float = 0.3) -> tuple[str, dict]:
+    """A script that starts threads and does NOT join them, the threads CALLING FUNCTIONS OF THE SCRIPT after the script's main code
+    has returned.  Every thread has entered its (traced) function before the script ends (the semaphore handshake of
+    `concurrent(join=False)`), makes zero or more calls, then waits for an event that the LAST statement of the main script sets,
+    sleeps `pause` seconds (the main thread still has to leave the script after that statement) and only then makes several calls
+    into functions of the script: plain functions, a function calling another one twice, a loop over a generator, an exception
+    raised in a callee and caught, a lambda calling a function, a recursive function.  No output, no timing beyond the pause; the
+    events each thread executes are the same in every run.
+    Returns (source, {'late_calls': {function of the thread: number of calls it makes after the script has ended}})."""
+    lines = ['import threading, time', '', 'entered = threading.Semaphore(0)', 'go = threading.Event()', '',
+             'def inc(n):', '    m = n + 1', '    return m', '',
+             'def twice(n):', '    return inc(inc(n))', '',
+             'def gen(n):', '    for i in range(n):', '        yield i', '',
+             'def total(n):', '    s = 0', '    for v in gen(n % 3):', '        s += v', '    return s', '',
+             'def boom(n):', '    raise ValueError(n)', '',
+             'def guarded(n):', '    try:', '        boom(n)', '    except ValueError:', '        return 0', '    return n', '',
+             'def rec(n):', '    if n <= 0:', '        return 0', '    return 1 + rec(n - 1)', '']
+    forms = ['v = inc(v)', 'v = twice(v)', 'v += total(v)', 'v += guarded(v)', 'v = (lambda q: inc(q))(v)', 'v = rec(v % 3)', 'v = inc(v)']
+    late: dict = {}
+
+    def calls(n: int) -> list:
+        return [f'    {rng.choice(forms)}' for _ in range(n)]
+    for i in range(nthreads):
+        n = rng.randint(2, 4)
+        late[f'late_caller_{i}'] = n
+        lines += [f'def late_caller_{i}():', f'    v = {i + 1}', '    entered.release()'] + calls(rng.randint(0, 1))
+        lines += ['    go.wait()', f'    time.sleep({pause})'] + calls(n)
+        if rng.random() < 0.5:
+            lines += ['    return v']
+        lines += ['']
+    lines += ['ths = [' + ', '.join(f'threading.Thread(target=late_caller_{i})' for i in range(nthreads)) + ']', 'for t in ths:', '    t.start()']
+    if rng.random() < 0.5:
+        lines += ['m = inc(4)']
+    lines += ['for t in ths:', '    entered.acquire()', 'go.set()']      # not joined: the threads outlive the main script; `go.set()` is its last statement
+    return '\n'.join(lines) + '\n', {'late_calls': late}
